@@ -120,7 +120,7 @@ func parseChallenge(input string) (*challenge, error) {
 		return nil, errDigestBadChallenge
 	}
 	s = strings.Trim(s[7:], ws)
-	sl := strings.Split(s, ",")
+	sl := splitChallengeParams(s)
 	c := &challenge{}
 	var r []string
 	for i := range sl {
@@ -154,6 +154,28 @@ func parseChallenge(input string) (*challenge, error) {
 		}
 	}
 	return c, nil
+}
+
+// splitChallengeParams splits the parameter list of a challenge at the commas
+// that are not inside a quoted-string (RFC 7230 section 3.2.6), so that values
+// like qop="auth,auth-int" or realm="Acme, Inc." stay in one piece.
+func splitChallengeParams(s string) []string {
+	var sl []string
+	inQuotes, escaped, start := false, false, 0
+	for i := 0; i < len(s); i++ {
+		switch {
+		case escaped:
+			escaped = false
+		case inQuotes && s[i] == '\\':
+			escaped = true
+		case s[i] == '"':
+			inQuotes = !inQuotes
+		case s[i] == ',' && !inQuotes:
+			sl = append(sl, s[start:i])
+			start = i + 1
+		}
+	}
+	return append(sl, s[start:])
 }
 
 type credentials struct {
@@ -215,19 +237,14 @@ func (c *credentials) validateQop() error {
 	if c.messageQop == "" {
 		return nil
 	}
-	possibleQops := strings.Split(c.messageQop, ", ")
-	var authSupport bool
-	for _, qop := range possibleQops {
-		if qop == "auth" {
-			authSupport = true
-			break
+	// the challenge carries a comma separated list of alternatives; pick "auth"
+	for _, qop := range strings.Split(c.messageQop, ",") {
+		if strings.TrimSpace(qop) == "auth" {
+			c.messageQop = "auth"
+			return nil
 		}
 	}
-	if !authSupport {
-		return errDigestQopNotSupported
-	}
-
-	return nil
+	return errDigestQopNotSupported
 }
 
 func (c *credentials) h(data string) string {
